@@ -107,7 +107,7 @@ class Report:
         os.makedirs(EVIDENCE, exist_ok=True)
         printed = set()
         for f, e in known_hit:
-            line = 'KNOWN-FINDING: property=%s %s :: %s' % (self.prop, f['key'], e.get('what', ''))
+            line = 'KNOWN-FINDING: property=%s %s :: %s' % (self.prop, f['key'], e.get('short') or e.get('what', '')[:140])
             if line not in printed:
                 print(line)
                 printed.add(line)
